@@ -2,6 +2,8 @@ import RasnModel.Basic.Sexp
 import RasnModel.Lexer.Values
 import RasnModel.Spec.Values
 import RasnModel.Link.Values
+import RasnModel.Gen.Values
+import RasnModel.Gen.Names
 /- line-protocol handler for C07 -/
 namespace Driver.C07
 open Sexp Lexer.Values
@@ -197,6 +199,67 @@ def handleLink : List Sexp → String
       | some l =>
         let m := showAbs (Link.Values.absL l)
         if m == obs.show then "model=agree" else "model=differ:" ++ sanitize m
+      | none => "model=nolink"
+    | _, _, _ => "bad-request"
+  | _ => "bad-request"
+
+/-! ### the rendering of composite values: the model of `value_to_tokens` (`Gen/Values`) -/
+open Gen.Values in
+partial def showR : RExpr → String
+  | .lit a => "lit:" ++ showAtom a
+  | .wrap t e => "wrap:" ++ t ++ "(" ++ showR e ++ ")"
+  | .new t args => "new:" ++ t ++ "(" ++ ";".intercalate (args.map showR) ++ ")"
+  | .variant t a e => "variant:" ++ t ++ "::" ++ a ++ "(" ++ showR e ++ ")"
+  | .vec xs => "vec(" ++ ";".intercalate (xs.map showR) ++ ")"
+
+/-- the expression tree the harness read off the generated initialiser (`syn`), in the same text form -/
+partial def showObserved : Sexp → Option String
+  | .list [.atom "lit", a] => (parseAbs a).map fun v => "lit:" ++ v.show
+  | .list [.atom "wrap", t, e] => do pure ("wrap:" ++ (← asText t) ++ "(" ++ (← showObserved e) ++ ")")
+  | .list [.atom "new", t, .list args] => do
+      pure ("new:" ++ (← asText t) ++ "(" ++ ";".intercalate (← args.mapM showObserved) ++ ")")
+  | .list [.atom "variant", t, a, e] => do
+      pure ("variant:" ++ (← asText t) ++ "::" ++ (← asText a) ++ "(" ++ (← showObserved e) ++ ")")
+  | .list [.atom "vec", .list xs] => do pure ("vec(" ++ ";".intercalate (← xs.mapM showObserved) ++ ")")
+  | _ => none
+
+def titleS (s : String) : String := String.ofList (Gen.Names.toTitle s.toList)
+def enumIdS (s : String) : String := String.ofList (Gen.Names.toEnumIdent s.toList)
+
+open Gen.Values in
+/-- site glue: a value assignment is linked with the body of its governing type and rendered by `generate_value`'s
+    arms; a DEFAULT is linked with the member's type and rendered by `value_to_tokens` under the member type's name
+    (`format_default_methods` fails when the member's type has none) -/
+def renderSite (site : String) (ty : Link.Values.VTy) (v : Link.Values.SVal) : Option (Option RExpr) :=
+  if site == "default" then
+    (Link.Values.link ty v).map fun l =>
+      match defaultName titleS ty with
+      | some tn => render titleS enumIdS ty (some tn) l
+      | none => none
+  else
+    match ty with
+    | .named n body => (Link.Values.link body v).map (renderAssignment titleS enumIdS (some n) body)
+    | other => (Link.Values.link other v).map (renderAssignment titleS enumIdS none other)
+
+open Gen.Values in
+/-- `c07render <assign|default> <type> <value notation> <observed expression tree>` ↦
+    `model=<agree|differ:..|norender|nolink>` — `norender`: the model refuses (no type name for a struct value,
+    an anonymous inline CHOICE) although the generator printed something -/
+def handleRender : List Sexp → String
+  | [.atom site, ty, v, .atom "refused"] =>
+    -- the generator answered with a warning instead of an initialiser: the model must refuse too
+    match parseVTy ty, parseSVal v with
+    | some ty, some v =>
+      match renderSite site ty v with
+      | some (some r) => "model=differ:renders_" ++ sanitize (showR r)
+      | _ => "model=agree-refused"
+    | _, _ => "bad-request"
+  | [.atom site, ty, v, obs] =>
+    match parseVTy ty, parseSVal v, showObserved obs with
+    | some ty, some v, some obs =>
+      match renderSite site ty v with
+      | some (some r) => let m := showR r; if m == obs then "model=agree" else "model=differ:" ++ sanitize m
+      | some none => "model=norender"
       | none => "model=nolink"
     | _, _, _ => "bad-request"
   | _ => "bad-request"
